@@ -47,6 +47,7 @@ class setitem_block_slice:
                 return {"skipped-block-holds-no-selected-position": (not inblock) or not _sel(loc0 + q, a, b, s)}
             bi = E.block_index
             return {"local-slice-inside-the-block": 0 <= bi.start < bi.stop <= loc1 - loc0 and bi.step == s,
+                    "first-local-position-is-a-selected-one": a <= loc0 + bi.start < b,
                     "local-slice-selects-the-blocks-share": (not inblock) or (_sel(q, bi.start, bi.stop, s) == _sel(loc0 + q, a, b, s))}
         import z3
         broke = z3.is_true(z3.simplify(S._t(E.fragment_broke)))
@@ -54,6 +55,8 @@ class setitem_block_slice:
             return {"skipped-block-holds-no-selected-position": S.Implies(inblock, S.Not(_sel(loc0 + q, a, b, s)))}
         st, sp = S.val(E.start), S.val(E.stop)
         return {"local-slice-inside-the-block": S.And(0 <= st, st < sp, sp <= loc1 - loc0, S.val(E.step) == s),
+                # what the counting fragment (block-counts) takes as its precondition
+                "first-local-position-is-a-selected-one": S.And(a <= loc0 + st, loc0 + st < b),
                 "local-slice-selects-the-blocks-share": S.Implies(inblock, _sel(q, st, sp, s) == _sel(loc0 + q, a, b, s))}
 
     def ghost_domain(index, loc0, loc1, overlaps):
@@ -67,3 +70,48 @@ class setitem_block_slice:
                     for loc0 in range(0, top, 2):
                         for w in (0, 1, 3, 4, 6):
                             yield {"index": slice(a, b, s), "loc0": loc0, "loc1": loc0 + w, "overlaps": True}
+
+
+def _count(lo, hi, step):
+    """number of elements of range(lo, hi, step), step >= 1"""
+    n = S.ceildiv(hi - lo, step)
+    return S.If(hi > lo, n, 0)
+
+
+@contract(f"{SI}::setitem_array_expr", spec="block-counts", props=["C11"])
+class setitem_block_counts:
+    """which elements of the value go to a block: `block_index_size` is the number of positions the block-local slice
+    selects, and `n_preceding` the number of positions of the key that lie before the block -- so the block is assigned the
+    value elements n_preceding .. n_preceding + block_index_size - 1, in order"""
+    fragment = {"first": "block_index_size, rem = divmod(stop - start, step)", "last": "if rem:", "last_nth": 2}
+    params = {"index": "slice", "loc0": "int", "start": "int", "stop": "int", "step": "int"}
+    result = None
+
+    def requires(index, loc0, start, stop, step):
+        a, b, c = S.parts(index)
+        return S.And(S.Not(S.is_none(a)), S.Not(S.is_none(b)), S.Not(S.is_none(c)), S.val(c) >= 1, S.val(c) == step,
+                     S.val(a) >= 0, S.val(b) >= 0, 0 <= loc0, 0 <= start, start < stop,
+                     # what the block-slice fragment establishes before this one runs: the block holds a selected position
+                     S.val(a) <= loc0 + start, loc0 + start < S.val(b))
+
+    def ensures(result, index, loc0, start, stop, step, env=None, calls=None):
+        E = env if env is not None else result
+        a, b, s = _parts(index)
+        size = S.val(E.block_index_size) if env is not None else E.block_index_size
+        npre = S.val(E.n_preceding) if env is not None else E.n_preceding
+        if env is None:
+            return {"size-is-the-number-of-selected-local-positions": size == len(range(start, stop, step)),
+                    "n_preceding-is-the-number-of-selected-positions-before-the-block": npre == len(range(a, min(b, loc0), s))}
+        return {"size-is-the-number-of-selected-local-positions": size == _count(start, stop, step),
+                "n_preceding-is-the-number-of-selected-positions-before-the-block": npre == _count(a, S.min_(b, loc0), s)}
+
+    def domain(tier, rng):
+        top = 10 if tier == "quick" else 14
+        for a in range(0, top):
+            for b in range(0, top + 1):
+                for s in (1, 2, 3, 5):
+                    for loc0 in range(0, top, 3):
+                        for st in (0, 1, 2):
+                            for sp in (1, 3, 4):
+                                if st < sp:
+                                    yield {"index": slice(a, b, s), "loc0": loc0, "start": st, "stop": st + sp, "step": s}
